@@ -45,21 +45,15 @@ Lemma C02_refuted_static_suffix :
     whatwg_scheme (decode_runes (html_unescape (o ++ B "&colon;alert(1)"))) = Some (B "javascript").
 Proof. exists (B "javascript"). split; vm_compute; reflexivity. Qed.
 
-(* D3: rel='alternate stylesheet' makes the link a style sheet, but one allow-listed token is enough
-   for the engine to accept plain URL strings (the engine passes the normalised rel with spaces around) *)
-Lemma C02_refuted_rel :
+(* D3 (REPAIRED, fix: allow a URL in a link element's href only if every rel value is allow-listed):
+   rel='alternate stylesheet' makes the link a style sheet; one allow-listed token used to be enough for
+   the engine to accept plain URL strings.  Now the context is TrustedResourceURL only (the engine
+   passes the normalised rel with spaces around); the general statement is C02_stylesheet_link_href. *)
+Lemma C02_D3_repaired :
   code_loading_url_attr (B "link") (B "href") (B " alternate stylesheet ") = true /\
-  sc_for_attr_val (B "link") (B "href") (B " alternate stylesheet ") = Some SC_TRUOrURL /\
-  sc_sanitizer_name SC_TRUOrURL = B "_sanitizeTrustedResourceURLOrURL".
+  sc_for_attr_val (B "link") (B "href") (B " alternate stylesheet ") = Some SC_TRU /\
+  sc_sanitizer_name SC_TRU = B "_sanitizeTrustedResourceURL".
 Proof. repeat split; vm_compute; reflexivity. Qed.
-
-Lemma C02_no_code_context_refuted : ~ C02_no_code_context_full_statement.
-Proof.
-  intros H. destruct (H (B "link") (B "href") (B " alternate stylesheet ") SC_TRUOrURL) as [E _].
-  - vm_compute; reflexivity.
-  - vm_compute; reflexivity.
-  - vm_compute in E. discriminate E.
-Qed.
 
 (* D4: the name under which a helper template is derived ignores the static prefix of the attribute
    value: the copy derived after /foo/ (chain without the URL sanitizer) is reused at the empty prefix *)
